@@ -33,7 +33,7 @@ def cases(seed, tier):
     for i in range(ntree):
         dt = ["float64", "complex128", "float32"][i % 3] if i % 7 else "float64"
         out.append({"group": "tree", "seed": sub_seed(seed, "c11t", i), "depth": 1 + i % (3 if tier == "quick" else 4),
-                    "dtype": dt})
+                    "dtype": dt, "flavour": "square_herm" if i % 4 == 3 else "general"})
     # class histories: exhaustive orders
     hid = 0
     for feats in CHILD_FEATURES:
@@ -51,7 +51,7 @@ def cases(seed, tier):
 
 
 # ------------------------------------------------------------------------------------------------ trees
-def gen_tree(rng, depth, dtype, p, q, tgen, square_herm_ok=True):
+def gen_tree(rng, depth, dtype, p, q, tgen, flavour="general"):
     """returns (operator, dense, descr, info) for a random expression of shape (p,q)"""
     import xitorch
     info = {"nodes": 0, "leaf_kinds": set()}
@@ -61,6 +61,8 @@ def gen_tree(rng, depth, dtype, p, q, tgen, square_herm_ok=True):
         if p != q:
             kinds = [k for k in kinds if not k.startswith("herm") and k != "dense_herm"]
         kind = rng.choice(kinds)
+        if flavour == "square_herm" and p == q and rng.random() < 0.7:
+            kind = rng.choice(["herm_mv", "dense_herm", "herm_all"])
         if kind == "jac" and dtype.is_complex:
             kind = "mv_rmv"
         info["leaf_kinds"].add(kind)
@@ -100,7 +102,7 @@ def gen_tree(rng, depth, dtype, p, q, tgen, square_herm_ok=True):
             a, da, sa = node(d - 1, p, q)
             c = rng.choice([2, -3, 0.5, -1.25, 0, 1])
             return (a * c if kind == "mul" else c * a), da * c, [kind, c, sa]
-        r = rng.choice([1, 2, 3, 4])
+        r = rng.choice([1, 2, 3, 4]) if flavour == "general" else p
         a, da, sa = node(d - 1, p, r)
         b, db, sb = node(d - 1, r, q)
         return a.matmul(b), torch.matmul(da, db), ["matmul", sa, sb]
@@ -174,10 +176,10 @@ def run_tree(desc, obs):
     tgen = torch.Generator().manual_seed(desc["seed"])
     dtype = gen.rdtype(desc["dtype"])
     p, q = rng.choice([1, 2, 3, 4]), rng.choice([1, 2, 3, 4])
-    if rng.random() < 0.4:
+    if rng.random() < 0.4 or desc.get("flavour") == "square_herm":
         q = p
     try:
-        op, D, descr, info = gen_tree(rng, desc["depth"], dtype, p, q, tgen)
+        op, D, descr, info = gen_tree(rng, desc["depth"], dtype, p, q, tgen, desc.get("flavour", "general"))
     except Exception as e:
         obs.exc_violation("tree:construct", e, depth=desc["depth"])
         obs.nontrivial = True
@@ -198,6 +200,10 @@ def run_tree(desc, obs):
             herm = D.shape[-1] == D.shape[-2] and bool(torch.allclose(D, D.transpose(-2, -1).conj(), atol=1e-4 if dtype == torch.float32 else 1e-9))
             obs.check(herm, "tree:hermitian_flag", "operator claims is_hermitian but its matrix is not", tree=descr)
     obs.nontrivial = info["nodes"] >= 1
+    if desc.get("flavour") == "square_herm":
+        obs.count("trees_square_hermitian_flavour")
+    if op.is_hermitian and info["nodes"] >= 1:
+        obs.count("composite_trees_flagged_hermitian")
     obs.count("trees_with_composition", 1 if info["nodes"] >= 1 else 0)
 
 
